@@ -459,6 +459,9 @@ func concreteHash(name string, b []byte) uint64 {
 		return uint64(crc32.ChecksumIEEE(b))
 	case "xxh64":
 		return xxh64(b)
+	case "maphash":
+		// any fixed injective-enough function of the bytes: the real one is seeded per process
+		return xxh64(b) ^ 0x9e3779b97f4a7c15
 	}
 	panic(fmt.Sprintf("concreteHash %s", name))
 }
